@@ -82,10 +82,7 @@ def _r1(ctx, f):
         else:
             ctx.unknown("R1", U(sl[0]), f.where(sl[0]), "direct slicing with an unrecognised range bound %s" % U(stop))
             return
-        args = [k.value for k in p.keywords if k.arg == "args"]
-        tgt = [U(k.value) for k in p.keywords if k.arg == "target"]
-        ok = bool(args) and isinstance(args[0], ast.Tuple) and len(args[0].elts) == 4 and U(args[0].elts[1]) == U(gen.target) \
-            and tgt == ["self._extend_path"]
+        ok = _worker_args_ok(ctx, f, p, U(gen.target))
         ctx.check(ok, "R1", "one worker per slice: Process(target=_extend_path, args=(shared, slice, graph, offset))", f.where(p),
                   "workers are not created one per slice with (shared list, that slice, graph, offset)", f.qname, "worker per slice")
         return
@@ -194,10 +191,7 @@ def _r1(ctx, f):
                      "the last n mod c instructions are never used as search roots (LCDs through them are lost for "
                      "kernel lengths that are not a multiple of the worker count)" % U(wd[0].value))
     # one process per slice, with the right arguments
-    args = [k.value for k in p.keywords if k.arg == "args"]
-    tgt = [U(k.value) for k in p.keywords if k.arg == "target"]
-    ok = bool(args) and isinstance(args[0], ast.Tuple) and len(args[0].elts) == 4 and U(args[0].elts[1]) == U(gen.target) \
-        and tgt == ["self._extend_path"]
+    ok = _worker_args_ok(ctx, f, p, U(gen.target))
     ctx.check(ok, "R1", "one worker per slice: Process(target=_extend_path, args=(shared, slice, graph, offset))", f.where(p),
               "workers are not created one per slice with (shared list, that slice, graph, offset)", f.qname, "worker per slice")
     st = [l for l in ast.walk(f.node) if isinstance(l, ast.For) and any(U(s) == "%s.start()" % U(l.target) for s in l.body)]
@@ -223,6 +217,106 @@ def _r1(ctx, f):
               "parallel search for n >= INSTRUCTION_THRESHOLD (%s)" % (U(thr) if thr is not None else "?"), f.where(),
               "the multi-process search is used when n %s INSTRUCTION_THRESHOLD, not when n >= INSTRUCTION_THRESHOLD" % {
                   "Gt": ">", "Lt": "<", "LtE": "<=", "GtE": ">="}.get(rel, "?"), f.qname, "threshold")
+
+
+def _worker_args_ok(ctx, f, p, slice_var):
+    """Process(target=self._extend_path, args=(...)): the arguments bound to the worker's parameters - the slice for its
+    kernel parameter, a list for its result parameter, the searched graph and the offset (extra parameters are allowed)."""
+    args = [k.value for k in p.keywords if k.arg == "args"]
+    tgt = [U(k.value) for k in p.keywords if k.arg == "target"]
+    if not args or not isinstance(args[0], ast.Tuple) or tgt != ["self._extend_path"]:
+        return False
+    w = ctx.func("KernelDG._extend_path")
+    params = [x for x in w.params() if x != "self"]
+    if len(args[0].elts) > len(params) or len(args[0].elts) < 4:
+        return False
+    bound = dict(zip(params, args[0].elts))
+    # the worker's kernel parameter is the one its root loop iterates
+    loops = [l for l in ast.walk(w.node) if isinstance(l, ast.For) and isinstance(l.iter, ast.Name) and l.iter.id in params
+             and C.calls_to(l, "all_simple_paths")]
+    if len(loops) != 1:
+        return False
+    kparam = loops[0].iter.id
+    return U(bound.get(kparam, ast.Constant(None))) == slice_var
+
+
+def _worker_early_exit(ctx, f, p):
+    """R6: a worker that leaves its root loop early hands back an incomplete result without anybody knowing - unless that can
+    only happen when a time-out is in force, in which case the parent reports it (C19-R1). The exit must be conditioned on a
+    deadline parameter that is not None, and the caller may pass a non-None deadline only where `timeout != -1`."""
+    ctx.rule("R6", "a worker leaves its roots early only under a deadline, and a deadline exists only when a time-out is in force")
+    w = ctx.func("KernelDG._extend_path")
+    wparams = [x for x in w.params() if x != "self"]
+    loops = [l for l in ast.walk(w.node) if isinstance(l, ast.For) and C.calls_to(l, "all_simple_paths")]
+    if len(loops) != 1:
+        ctx.unknown("R6", "worker root loop", w.where(), "the worker's loop over its roots was not found")
+        return
+    lp = loops[0]
+    exits = [x for x in ast.walk(w.node) if (isinstance(x, ast.Break) and C.enclosing_loop(x) is lp) or (
+        isinstance(x, ast.Return) and C.in_subtree(x, lp))]
+    if not exits:
+        ctx.ok("R6", "the worker visits every root of its slice (no early exit)", w.where(lp))
+        return
+    tmo = f.params()[2] if len(f.params()) > 2 else "timeout"
+    dparams = set()
+    for x in exits:
+        nf = C.norm_fact_nodes(x, stop=lp)
+        ds = {C.is_none_test(e)[0] for e, pol in nf if (not pol) and C.is_none_test(e) is not None and C.is_none_test(e)[0] in wparams}
+        timed = [e for e, pol in nf if pol and isinstance(e, ast.Compare) and any(
+            isinstance(c_, ast.Call) and U(c_.func).startswith("time.") for c_ in ast.walk(e)) and any(d_ in pm.names_in(e) for d_ in ds)]
+        ctx.judge(bool(ds) and bool(timed), bool(ds) or not nf, "R6", "early exit of the worker only under `deadline is not None and clock > deadline`",
+                  w.where(x), "the worker can leave its root loop early (guards: %s) without a deadline being in force: the roots it did not "
+                  "visit are missing from the result, and nobody reports it" % [("" if pol else "not ") + U(e) for e, pol in nf], w.qname,
+                  "worker early exit " + U(x))
+        dparams |= ds
+    # what the caller passes for the deadline parameter(s)
+    args = [k.value for k in p.keywords if k.arg == "args"]
+    if not args or not isinstance(args[0], ast.Tuple):
+        return
+    bound = dict(zip(wparams, args[0].elts))
+    flow = C.flow_of(f)
+    for dp in sorted(dparams):
+        a = bound.get(dp)
+        if a is None:
+            ctx.ok("R6", "the deadline parameter `%s` keeps its default None: workers never leave early" % dp, f.where(p))
+            continue
+
+        def verdict(v, at, extra=()):
+            """True: this value is None whenever there is no time-out; False: it can be a real deadline although timeout == -1"""
+            if isinstance(v, ast.Constant) and v.value is None:
+                return True
+            if isinstance(v, ast.IfExp):
+                facts = C.norm_facts_of_test(v.test)
+                no_tmo_body = (C.CT("%s == -1" % tmo), True) in facts
+                no_tmo_else = (C.CT("%s == -1" % tmo), False) in facts
+                if no_tmo_body:
+                    return verdict(v.body, at) is True      # the branch taken without a time-out must be None
+                if no_tmo_else:
+                    return verdict(v.orelse, at) is True
+                return None
+            in_force = (C.CT("%s == -1" % tmo), False) in C.norm_facts(at)
+            if in_force:
+                return True
+            if isinstance(v, ast.BinOp) and tmo in pm.names_in(v):
+                return False
+            return None
+        vs = []
+        if isinstance(a, ast.Name):
+            try:
+                defs = flow.reaching(p, a.id)
+            except KeyError:
+                defs = []
+            for d in defs:
+                vs.append((verdict(d.value, d.stmt) if d.kind == "assign" and d.value is not None else None, d.stmt))
+        else:
+            vs.append((verdict(a, p), p))
+        bad = [st for v_, st in vs if v_ is False]
+        ctx.judge(not bad and all(v_ is True for v_, _ in vs), bool(vs) and all(v_ is not None for v_, _ in vs), "R6",
+                  "the deadline handed to the workers is None whenever no time-out is in force (timeout == -1)",
+                  f.where(bad[0]) if bad else f.where(p),
+                  "the workers get a deadline computed from `%s` also when it is -1 (no time-out): that deadline lies in the past, every "
+                  "worker stops after its first root, and the parent - which waits without a time-out - reports the truncated result "
+                  "as complete" % tmo, f.qname, "worker deadline without time-out")
 
 
 def reuse_r1(ctx, rule, why):
@@ -492,3 +586,6 @@ def run(ctx):
     _r3(ctx, f)
     _r4(ctx)
     _r5(ctx)
+    procs = [c for c in ast.walk(f.node) if isinstance(c, ast.Call) and pm.call_name(c).endswith("Process")]
+    if len(procs) == 1:
+        _worker_early_exit(ctx, f, procs[0])
